@@ -254,6 +254,12 @@ func (m *Method) compileType() error {
 		case m.Subservice != nil:
 			return fmt.Errorf("method with channel cannot return subservice")
 		}
+		if in := m.Channel.In; in != nil && in.Kind != KindMessage {
+			return fmt.Errorf("channel in type must be a message, got %q instead", in.Kind)
+		}
+		if out := m.Channel.Out; out != nil && out.Kind != KindMessage {
+			return fmt.Errorf("channel out type must be a message, got %q instead", out.Kind)
+		}
 
 		m.Type = MethodType_Channel
 		return nil
